@@ -158,8 +158,22 @@ class YAMLPath:
         prefixed_segment = "{}{}".format(self.separator, removable_segment)
         path_now = self.original
 
+        bracketed_segment = "[&{}]".format(popped_segment[1])
+        prefixed_bracketed = "{}{}".format(self.separator, bracketed_segment)
         if path_now.endswith(prefixed_segment):
             self.original = path_now[0:len(path_now) - len(prefixed_segment)]
+        elif (
+            popped_segment[0] is PathSegmentTypes.ANCHOR
+            and path_now.endswith(prefixed_bracketed)
+        ):
+            # An Anchor after another segment is written as [&name]
+            self.original = path_now[
+                0:len(path_now) - len(prefixed_bracketed)]
+        elif (
+            popped_segment[0] is PathSegmentTypes.ANCHOR
+            and path_now.endswith(bracketed_segment)
+        ):
+            self.original = path_now[0:len(path_now) - len(bracketed_segment)]
         elif path_now.endswith(removable_segment):
             self.original = path_now[0:len(path_now) - len(removable_segment)]
         elif (
